@@ -37,7 +37,7 @@ func Run(k *report.Check) {
 	for _, w := range []int{1, 2}[:k.Pick(2, 2)] {
 		d := k.Pick(5, 7)
 		if w == 2 {
-			d = k.Pick(5, 6)
+			d = k.Pick(4, 6)
 		}
 		k.ExploreSched(fmt.Sprintf("job/workers=%d,d=%d", w, d), mc.Config{Bound: 0}, params{depth: d, workers: w}, body)
 	}
